@@ -1,3 +1,6 @@
+#[cfg(stylua_verif)]
+use stylua_verif_seams::std;
+
 use anyhow::{bail, Context, Result};
 use clap::StructOpt;
 use console::style;
@@ -559,6 +562,8 @@ fn format(opt: opt::Opt) -> Result<i32> {
 }
 
 fn main() {
+    #[cfg(stylua_verif)]
+    stylua_verif_seams::init();
     let opt = opt::Opt::parse();
     let output_format = opt.output_format;
     let should_use_color = opt.color.should_use_color_stderr();
